@@ -54,11 +54,21 @@ Section FD.
     unfold hash_of. dex; simpl; [reflexivity|apply Z.eqb_refl].
   Qed.
 
+  Lemma hash_shape_model items : hash_shape_ok items (tr_hout (hash_out ih items)) = true.
+  Proof.
+    unfold hash_shape_ok, hash_out.
+    change (fun p : nat * nat => is_unhashable (snd p)) with (fun p : nat * nat => unhashable (snd p)).
+    match goal with |- context [existsb ?f ?l] => destruct (existsb f l) eqn:E end; simpl; reflexivity.
+  Qed.
+
+  Lemma hash_out_of items : tr_hout (hash_out ih items) = tr_fres (hash_of ih items).
+  Proof. unfold hash_out, hash_of. dex; reflexivity. Qed.
+
   Lemma fd_step_refines f op : NoDup (map fst (f_items f)) -> slot_ok ih f ->
     f_op_ok (f_items f) (tr_fop op) (tr_fres (snd (fd_step ih f op))) (f_items (fst (fd_step ih f op))) = true.
   Proof.
     intros ND SO. unfold f_op_ok. rewrite fd_step_items, pairs_eqb_refl. simpl.
-    destruct op as [k v|k|kvs|kvs|k d|k d| | | |k|kvs| | ]; simpl; trivial.
+    destruct op as [k v|k|kvs|kvs|k d|k d| | | |k|kvs| |plain]; simpl; trivial.
     - (* hash *)
       rewrite (fd_hash_result ih f SO). unfold hash_of.
       change (fun p : nat * nat => is_unhashable (snd p)) with (fun p : nat * nat => unhashable (snd p)).
@@ -71,9 +81,10 @@ Section FD.
       { apply EqSet_of_get; trivial. intro k. now rewrite d_update_get, Gr. }
       unfold functional. rewrite (proj2 (nodup_b_true _) ND'). simpl.
       rewrite (proj2 (same_set_true _ _) E). simpl.
-      rewrite dict_eqb_same_set by assumption. destruct (same_set _ _); reflexivity.
-    - unfold functional. rewrite (proj2 (nodup_b_true _) ND), same_set_refl. reflexivity.
-    - unfold functional. rewrite (proj2 (nodup_b_true _) ND), same_set_refl. reflexivity.
+      rewrite dict_eqb_same_set by assumption. rewrite hash_shape_model. destruct (same_set _ _); reflexivity.
+    - unfold functional. rewrite (proj2 (nodup_b_true _) ND), same_set_refl, hash_shape_model. reflexivity.
+    - unfold functional. rewrite (proj2 (nodup_b_true _) ND), same_set_refl.
+      destruct plain; [reflexivity|]. rewrite hash_shape_model. reflexivity.
   Qed.
 
   Fixpoint fd_trace (f : fdict) (ops : list fd_op) : list (fd_op * fd_obs) :=
@@ -87,8 +98,42 @@ Section FD.
   Proof.
     destruct r as [v|e]; simpl.
     - destruct v; simpl; rewrite ?Nat.eqb_refl, ?Z.eqb_refl; trivial.
-      rewrite items_eqb_refl. destruct same_obj, equal; reflexivity.
+      rewrite items_eqb_refl. destruct same_obj, equal, h; simpl; rewrite ?Z.eqb_refl; reflexivity.
     - destruct e; simpl; trivial; apply Nat.eqb_refl.
+  Qed.
+
+  (* walking the model's own trace: agree, ok, and every recorded hash outcome is
+     the one a fresh computation on the items gives *)
+  Lemma hs_of_step_model f op : NoDup (map fst (f_items f)) -> slot_ok ih f ->
+    Forall (fun h => h = tr_fres (hash_of ih (f_items f))) (hs_of_step op (snd (fd_step ih f op))) /\
+    (op = FHash -> hs_of_step op (snd (fd_step ih f op)) <> []).
+  Proof.
+    intros ND SO.
+    assert (P : forall items', NoDup (map fst items') -> dict_eqb_unordered items' (f_items f) = true ->
+                hs_of_step (FClone false) (Ok (FNew items' false true (hash_out ih items'))) = [tr_fres (hash_of ih (f_items f))]).
+    { intros items' ND' Eq. rewrite dict_eqb_same_set in Eq by assumption. apply same_set_true in Eq.
+      assert (Pm : Permutation items' (f_items f)) by now apply EqSet_perm.
+      rewrite <- (hash_order_free ih _ _ Pm), <- hash_out_of. unfold hash_out. dex; reflexivity. }
+    destruct op as [k v|k|kvs|kvs|k d|k d| | | |k|kvs| |plain]; simpl;
+      try (split; [constructor|intro; discriminate]; fail).
+    - (* hash *) split; [|intros _; discriminate]. constructor; [|constructor].
+      now rewrite (fd_hash_result ih f SO).
+    - (* get *) destruct (d_get (f_items f) k); split; try constructor; intro; discriminate.
+    - (* updated *) split; [|intro; discriminate].
+      destruct (dict_eqb_unordered (d_update (f_items f) kvs) (f_items f)) eqn:Eq.
+      + specialize (P (d_update (f_items f) kvs) (d_update_nodup kvs _ ND) Eq). simpl in P.
+        destruct (hash_out ih (d_update (f_items f) kvs)); inversion P; subst; repeat constructor.
+      + constructor.
+    - (* copy *) split; [|intro; discriminate].
+      assert (Eq : dict_eqb_unordered (f_items f) (f_items f) = true).
+      { rewrite dict_eqb_same_set by assumption. apply same_set_refl. }
+      specialize (P (f_items f) ND Eq). simpl in P.
+      destruct (hash_out ih (f_items f)); inversion P; subst; repeat constructor.
+    - (* clone *) split; [|intro; discriminate]. destruct plain; [constructor|].
+      assert (Eq : dict_eqb_unordered (f_items f) (f_items f) = true).
+      { rewrite dict_eqb_same_set by assumption. apply same_set_refl. }
+      specialize (P (f_items f) ND Eq). simpl in P.
+      destruct (hash_out ih (f_items f)); inversion P; subst; repeat constructor.
   Qed.
 
   (* walking the model's own trace: agree, ok, and every recorded hash outcome is
@@ -102,17 +147,17 @@ Section FD.
     - exists [], f. repeat split; trivial. intros [].
     - pose proof (fd_step_refines f op ND SO) as R.
       pose proof (fd_step_items ih f op) as I. pose proof (fd_step_slot_ok ih f op SO) as SO'.
-      assert (HR : op = FHash -> snd (fd_step ih f op) = hash_of ih (f_items f)).
-      { intros ->. simpl. now apply fd_hash_result. }
+      destruct (hs_of_step_model f op ND SO) as [HF HN].
       destruct (fd_step ih f op) as [f' r] eqn:E. simpl in *.
       assert (ND' : NoDup (map fst (f_items f'))) by now rewrite I.
       destruct (IH f' ND' SO') as [hs [fl [W [FA NE]]]].
       rewrite E. rewrite I in *. rewrite W.
       rewrite res_fval_eqb_refl, items_eqb_refl, R. simpl.
-      destruct op; try (exists hs, fl; repeat split; trivial; intros [?|?]; [discriminate|auto]).
-      exists (tr_fres r :: hs), fl. repeat split; trivial.
-      + constructor; trivial. now rewrite HR.
-      + intros _. discriminate.
+      exists (hs_of_step op r ++ hs), fl. repeat split; trivial.
+      + apply Forall_app. split; trivial.
+      + intros [->|Hin]; intro Hnil; apply app_eq_nil in Hnil; destruct Hnil as [N1 N2].
+        * now apply HN.
+        * now apply NE.
   Qed.
 
   Lemma forallb_same (x : f_res) l : f_res_eqb x x = true -> Forall (fun h => h = x) l -> forallb (f_res_eqb x) l = true.
@@ -131,9 +176,13 @@ Section FD.
                      (snd (fd_hash ih (mkFD (dict_of kvs2) HUnset)))) = (true, true, false).
   Proof.
     intros Hih Hh. unfold c17_verdict.
-    assert (Eih : forall f op, fd_step (ih_lookup ihs) f op = fd_step ih f op).
-    { intros f op. destruct op; simpl; trivial. unfold fd_hash. destruct (f_slot f); trivial.
+    assert (Eho : forall items, hash_out (ih_lookup ihs) items = hash_out ih items).
+    { intro items. unfold hash_out. now rewrite (map_ext (ih_lookup ihs) ih Hih). }
+    assert (Ehh : forall f, fd_hash (ih_lookup ihs) f = fd_hash ih f).
+    { intro f. unfold fd_hash. destruct (f_slot f); trivial.
       dex; trivial. now rewrite (map_ext (ih_lookup ihs) ih Hih). }
+    assert (Eih : forall f op, fd_step (ih_lookup ihs) f op = fd_step ih f op).
+    { intros f op. destruct op; simpl; rewrite ?Eho, ?Ehh; trivial. }
     assert (Ew : forall steps f prev, fd_walk (ih_lookup ihs) f prev steps = fd_walk ih f prev steps).
     { induction steps as [|[op [r it]] rest IHs]; simpl; intros f prev; trivial.
       rewrite Eih. destruct (fd_step ih f op). now rewrite IHs. }
